@@ -1,6 +1,7 @@
 """C12 -- owned URIs are independent of their source; borrowed text is never altered."""
 from .. import shared, ownrules
 
+RETRY_INLINED = True
 LEVEL = 'proof'
 
 
